@@ -231,9 +231,12 @@ def run(prog, rep):
         for b in sorted(body.reachable()):
             for g in switch_edges(body, tr, b):
                 c = canon(g.cond)
-                m = re.match(r"^PartialEq::ne\(&\(Try::branch\(checker::check\(&\*(?:cast\(\*)?arg:self\.value\)?, &\*arg:ctx\)\) as Continue\)\.0\.quantifier, &\*promoted\{_1 = tree_sitter::CaptureQuantifier::(\w+); _0 = &_1\}\)$", c)
+                m = re.match(r"^PartialEq::(?:ne|eq)\(&\(Try::branch\(checker::check\(&\*(?:cast\(\*)?arg:self\.value\)?, &\*arg:ctx\)\) as Continue\)\.0\.quantifier, &\*promoted\{_1 = tree_sitter::CaptureQuantifier::(\w+); _0 = &_1\}\)$", c)
                 if m:
                     qs.add(m.group(1))
+                # `match (is_local, quantifier) { (true, ZeroOrMore) | (true, OneOrMore) => …` : explicit arms on the quantifier's discriminant
+                if g.variant in ("Zero", "ZeroOrOne", "ZeroOrMore", "One", "OneOrMore") and g.value is not None and re.search(r"checker::check\(&\*(?:cast\(\*)?arg:self\.value\)?, &\*arg:ctx\)\) as Continue\)\.0\.quantifier\)?$", c):
+                    qs.add(g.variant)
         err = any(st["rv"].get("variant") == "ExpectedListValue" for b in sorted(body.reachable()) for st in body.blocks[b]["stmts"] if st["k"] == "assign" and st["rv"]["k"] == "aggregate")
         rep.check(qs == {"ZeroOrMore", "OneOrMore"} and err, "C06.Q", "%s :: list source" % f.id, f.loc(), "quantifier ∉ {*, +} → ExpectedListValue",
                   "the iteration source's quantifier is not tested against exactly {ZeroOrMore, OneOrMore} (tested: %s)" % sorted(qs))
@@ -332,6 +335,14 @@ def run(prog, rep):
                   "unused-capture detection changed (difference=%s, underscore filter=%s, error=%s)" % (okd, filt, err))
         # every statement's used captures are merged in
         ext = [(b, t) for b, t in body.calls() if is_callee(t, r"Extend<T>>::extend$|Extend::extend$")]
+        for b, t in body.calls():      # `.map(|r| { used_captures.extend(r.used_captures); })` on the statement's result
+            if is_callee(t, r"Result::<T, E>::map$") and len(t["args"]) == 2:
+                cl = strip(tr.operand(t["args"][1]))
+                if cl[0] == "agg" and cl[1] == "closure" and cl[2] in prog.fns:
+                    ccf = prog.fns[cl[2]]
+                    cctr = Tracer(ccf.body)
+                    if any(is_callee(t2, r"Extend<T>>::extend$|Extend::extend$") and re.search(r"arg:\w+\.used_captures", canon(cctr.operand(t2["args"][1]))) for _b2, t2 in ccf.body.calls()):
+                        ext.append((b, t))
         loops = [(h, bl) for h, bl in natural_loops(body) if any(body.term(x)["k"] == "call" and is_callee(body.term(x), r"<impl tsg::ast::Statement>::check$") for x in bl)]
         ok2 = bool(loops) and bool(ext) and not cycle_avoiding(body, loops[0][0], loops[0][1], {b for b, t in ext})
         rep.check(ok2, "C06.U", "%s :: used captures merged" % f.id, f.loc(), "used_captures.extend(stmt_result.used_captures) for every statement", "a statement's used captures can be left out")
@@ -358,6 +369,21 @@ def run(prog, rep):
         for b, t in body.calls():
             if is_callee(t, r"Into<.*>>::into$|Into::into$"):
                 sinks.append(tr.operand(t["args"][0]))
+            # `child.check(ctx).map(|r| StatementResult { used_captures: r.used_captures })` / `.map(Into::into)`
+            if is_callee(t, r"Result::<T, E>::map$") and len(t["args"]) == 2:
+                cl = strip(tr.operand(t["args"][1]))
+                keeps = False
+                if cl[0] == "agg" and cl[1] == "closure" and cl[2] in prog.fns:
+                    cr = canon(Tracer(prog.fns[cl[2]].body).local(0))
+                    keeps = re.search(r"(arg:\w+\.used_captures|Into::into\(arg:\w+\))", cr) is not None
+                    ccf = prog.fns[cl[2]]
+                    cctr = Tracer(ccf.body)
+                    # … or the closure merges them itself: `.map(|r| { used_captures.extend(r.used_captures); })`
+                    keeps = keeps or any(is_callee(t2, r"Extend<T>>::extend$|Extend::extend$") and re.search(r"arg:\w+\.used_captures", canon(cctr.operand(t2["args"][1]))) for _b2, t2 in ccf.body.calls())
+                elif cl[0] == "fn" and re.search(r"Into::into$|From::from$", cl[1] or ""):
+                    keeps = True
+                if keeps:
+                    sinks.append(tr.operand(t["args"][0]))
         reached = set()
         for sk in sinks:
             for x in walk(sk):
